@@ -33,7 +33,7 @@ TICK_INNER = dict(file="src/progress_bar.rs", container="ProgressBar", name="tic
 
 UNIT = Unit(
     name="pb_glue",
-    properties=["C05", "C07"],
+    properties=["C05", "C06", "C07"],
     prelude=["time", "atomics"],
     trusted=[
         "ProgressBar::tick_inner stubbed: it forwards to BarState::tick unless a steady ticker is installed (Mutex/ticker not modelled); its ghost log stands for 'a redraw request was issued'",
